@@ -19,6 +19,42 @@ func devKey(d Deviation) string {
 	return d.Clause
 }
 
+// DDMin is the delta-debugging core: the shortest sub-list of steps (found within the budget) for
+// which fails() still holds.
+func DDMin(steps []Op, fails func([]Op) bool, deadline time.Time) []Op {
+	steps = append([]Op(nil), steps...)
+	n := 2
+	for len(steps) >= 2 && time.Now().Before(deadline) {
+		chunk := (len(steps) + n - 1) / n
+		reduced := false
+		for start := 0; start < len(steps) && time.Now().Before(deadline); start += chunk {
+			end := start + chunk
+			if end > len(steps) {
+				end = len(steps)
+			}
+			cand := append(append([]Op(nil), steps[:start]...), steps[end:]...)
+			if len(cand) > 0 && fails(cand) {
+				steps = cand
+				if n > 2 {
+					n--
+				}
+				reduced = true
+				break
+			}
+		}
+		if !reduced {
+			if chunk == 1 {
+				break
+			}
+			n *= 2
+			if n > len(steps) {
+				n = len(steps)
+			}
+		}
+	}
+	return steps
+}
+
 // Minimize returns a (usually much) shorter replay that still violates the same clause.
 func Minimize(rp *Replay, pr *Profile, st *Stats, target Deviation, budget time.Duration) *Replay {
 	deadline := time.Now().Add(budget)
@@ -48,35 +84,7 @@ func Minimize(rp *Replay, pr *Profile, st *Stats, target Deviation, budget time.
 	if !fails(steps, cfg) {
 		return rp // not reproducible from the recorded history (e.g. timing): keep as is
 	}
-	n := 2
-	for len(steps) >= 2 && time.Now().Before(deadline) {
-		chunk := (len(steps) + n - 1) / n
-		reduced := false
-		for start := 0; start < len(steps) && time.Now().Before(deadline); start += chunk {
-			end := start + chunk
-			if end > len(steps) {
-				end = len(steps)
-			}
-			cand := append(append([]Op(nil), steps[:start]...), steps[end:]...)
-			if len(cand) > 0 && fails(cand, cfg) {
-				steps = cand
-				if n > 2 {
-					n--
-				}
-				reduced = true
-				break
-			}
-		}
-		if !reduced {
-			if chunk == 1 {
-				break
-			}
-			n *= 2
-			if n > len(steps) {
-				n = len(steps)
-			}
-		}
-	}
+	steps = DDMin(steps, func(c []Op) bool { return fails(c, cfg) }, deadline)
 	// simplify the configuration where the steps allow it
 	try := func(mut func(c *Config, s []Op) bool) {
 		if !time.Now().Before(deadline) {
